@@ -430,6 +430,76 @@ where
     }
 }
 
+// ------------------------------------------------------------------ several entries in one archive
+pub struct Multi {
+    /// (name, shape, element bit patterns) of every tensor handed to the writer
+    pub entries: Vec<(String, Vec<usize>, Vec<u64>)>,
+    pub wrote: bool,
+    /// everything `read` returned, sorted by key
+    pub readback: Vec<(Vec<u8>, Outcome)>,
+    /// `read_array(name)` for every written name, in order
+    pub by_name: Vec<Outcome>,
+}
+
+/// Write one tensor per name (shapes cycle through a fixed list) into a single npz or
+/// safetensors archive, read everything back with `read` and each name with `read_array`.
+pub fn multi_round<T: HBits>(st: bool, names: &[String], seed: u64, width: u32) -> Multi
+where
+    for<'a> TensorView<'a, T>: Into<View<'a>>,
+{
+    let shapes: [&[usize]; 6] = [&[2], &[1, 3], &[], &[0], &[2, 2], &[3, 1, 1]];
+    let kinds = ['c', 'p', 's', 'b'];
+    let srcs: Vec<Source<T>> = names
+        .iter()
+        .enumerate()
+        .map(|(i, _)| Source::<T>::new(shapes[(i + seed as usize) % shapes.len()], kinds[(i + (seed >> 8) as usize) % 4], seed.wrapping_add(i as u64 * 7919), width))
+        .collect();
+    let entries: Vec<(String, Vec<usize>, Vec<u64>)> = names
+        .iter()
+        .zip(srcs.iter())
+        .map(|(n, s)| (n.clone(), s.shape.clone(), s.elems.iter().map(|x| x.to_bits64()).collect()))
+        .collect();
+    let items: Vec<(String, TensorView<'_, T>)> = names.iter().cloned().zip(srcs.iter().map(|s| s.view())).collect();
+    let written: Result<io::Result<Vec<u8>>, _> = std::panic::catch_unwind(std::panic::AssertUnwindSafe(|| {
+        if st {
+            let mut buf = Vec::new();
+            rten_serialize::safetensors::write(&mut buf, items).map(|_| buf)
+        } else {
+            let mut cur = Cursor::new(Vec::new());
+            rten_serialize::npz::write(&mut cur, items).map(|_| cur.into_inner())
+        }
+    }));
+    let bytes = match written {
+        Ok(Ok(b)) => b,
+        _ => return Multi { entries, wrote: false, readback: vec![], by_name: vec![] },
+    };
+    let b1 = bytes.clone();
+    let (tx, rx) = std::sync::mpsc::channel();
+    let _ = guarded(move || {
+        let r = if st { rten_serialize::safetensors::read(&b1[..]) } else { rten_serialize::npz::read(Cursor::new(b1)) };
+        if let Ok(map) = r {
+            let mut v: Vec<(Vec<u8>, Outcome)> = map.into_iter().map(|(k, val)| (k.into_bytes(), value_outcome(val))).collect();
+            v.sort_by(|a, b| a.0.cmp(&b.0));
+            let _ = tx.send(v);
+        }
+        Outcome::Err("EOther".into())
+    });
+    let readback = rx.try_recv().unwrap_or_default();
+    let mut by_name = Vec::new();
+    for n in names {
+        let b2 = bytes.clone();
+        let n2 = n.clone();
+        by_name.push(guarded(move || {
+            let r = if st { rten_serialize::safetensors::read_array(&b2[..], &n2) } else { rten_serialize::npz::read_array(Cursor::new(b2), &n2) };
+            match r {
+                Ok(v) => value_outcome(v),
+                Err(_) => Outcome::Err("EOther".into()),
+            }
+        }));
+    }
+    Multi { entries, wrote: true, readback, by_name }
+}
+
 // ------------------------------------------------------------------ tensors too large to materialise
 struct CountingWriter {
     head: Vec<u8>,
